@@ -3,6 +3,7 @@ call (DESIGN Appendix C).  The log is judged by spec/Trace.tla; this module
 never decides whether a result is right."""
 from __future__ import annotations
 
+import logging
 import signal
 import time
 
@@ -17,6 +18,7 @@ OPTION_KEYS = (
 )
 
 
+logging.getLogger("numpoly").setLevel(logging.ERROR)      # numpoly logs a warning on every numpy.savetxt of a polynomial
 TIMEOUTS = {"seen": 0}     # time-outs observed in this worker process
 PRELUDE = None      # optional callable(recorder) run when a trace starts (C15: option settings)
 
